@@ -18,6 +18,7 @@ type Job struct {
 	TokB  []int    `json:"tokB"`
 	NB    int      `json:"nb"`
 	Order []int    `json:"order"`
+	SB    int      `json:"sb"` // mix: the senders' block size (0 = 16)
 }
 
 func toBytes(x []int) []byte {
@@ -65,7 +66,11 @@ func Run(jobPath, out string) {
 			case "sock-udp", "sock-dtls", "sock-tcp", "sock-tls":
 				res[i] = RunSock(jobs[i].Mode[5:], jobs[i].P)
 			case "mix":
-				res[i] = RunMix(toBytes(jobs[i].TokA), toBytes(jobs[i].TokB), jobs[i].NB, jobs[i].Order)
+				if jobs[i].SB == 64 {
+					res[i] = RunMixSB(toBytes(jobs[i].TokA), toBytes(jobs[i].TokB), jobs[i].NB, jobs[i].Order, 64)
+				} else {
+					res[i] = RunMix(toBytes(jobs[i].TokA), toBytes(jobs[i].TokB), jobs[i].NB, jobs[i].Order)
+				}
 			case "obsbw":
 				res[i] = RunObsBW(jobs[i].P, jobs[i].Plan)
 			case "tcpconcz":
